@@ -334,6 +334,29 @@ class C13(Check):
                                                               hexf(-rng.random() * 10 ** rng.randint(0, 5)))] +
                                [hexf(rng.choice([0.0, 1e-4, 2.5, 59.99, 3599.9, 3600.0, 7384.2, 86400.0, 1.5e6]))]))
         wio, _ = self.correspond("writers", wl, rtol=1e-5)
+        # the info writer: one row per realization with index, iterations, reason, likelihood - whatever the run's duration was
+        for line in wl:
+            t = line.split(" ")
+            if t[1] != "winfo":
+                continue
+            o = wio.get(t[0])
+            if not o:
+                continue
+            nr = int(t[4])
+            self.monitor("info files compared with the report handed to the writer")
+            rows = [o.get("l%d" % (5 + i), []) for i in range(nr)]
+            for i in range(nr):
+                it, reason, l2 = t[5 + 3 * i], t[6 + 3 * i], unhex(t[7 + 3 * i])
+                row = rows[i]
+                ok = len(row) == 4 and row[0] == str(i) and row[1] == it and row[2] == reason
+                try:
+                    ok = ok and close6(unhex(row[3]), l2)
+                except Exception:
+                    ok = False
+                if not ok:
+                    self.violate("writer-values", "run_info row %d is %s, the report says realization %d: %s iterations, %s, likelihood %r (duration of the run: %r s)"
+                                 % (i, row, i, it, reason, l2, unhex(t[5 + 3 * nr]) if len(t) > 5 + 3 * nr else 0.0), {"case": line, "row": i, "written": row})
+                    break
         # what the membership writer wrote against what it was given: label, then every value to 6 significant digits
         for line in wl:
             t = line.split(" ")
